@@ -19,11 +19,20 @@ use crate::verif::sync::Mutex;
 
 use crate::actor::messages::StopMessage;
 use crate::actor::supervision::SupervisionTree;
+#[cfg(not(feature = "verif_hooks"))]
 use crate::concurrency as mpsc;
+#[cfg(feature = "verif_hooks")]
+use crate::verif::chan as mpsc;
 use crate::concurrency::MpscUnboundedReceiver as InputPortReceiver;
+#[cfg(not(feature = "verif_hooks"))]
 use crate::concurrency::MpscUnboundedSender as InputPort;
+#[cfg(feature = "verif_hooks")]
+use crate::verif::chan::MpscUnboundedSender as InputPort;
 use crate::concurrency::OneshotReceiver;
+#[cfg(not(feature = "verif_hooks"))]
 use crate::concurrency::OneshotSender as OneshotInputPort;
+#[cfg(feature = "verif_hooks")]
+use crate::verif::chan::OneshotSender as OneshotInputPort;
 use crate::message::BoxedMessage;
 #[cfg(feature = "cluster")]
 use crate::message::SerializedMessage;
@@ -163,8 +172,6 @@ impl ActorProperties {
             .unwrap()
             .take()
             .map_or(Err(MessagingErr::ChannelClosed), |prt| {
-                #[cfg(feature = "verif_hooks")]
-                crate::verif::point(crate::verif::PointKind::Channel, "signal.send", &self.signal as *const _ as usize);
                 prt.send(signal).map_err(|_| MessagingErr::ChannelClosed)
             })
     }
@@ -173,8 +180,6 @@ impl ActorProperties {
         &self,
         message: SupervisionEvent,
     ) -> Result<(), MessagingErr<SupervisionEvent>> {
-        #[cfg(feature = "verif_hooks")]
-        crate::verif::point(crate::verif::PointKind::Channel, "sup.send", &self.supervision as *const _ as usize);
         self.supervision.send(message).map_err(|e| e.into())
     }
 
@@ -220,8 +225,6 @@ impl ActorProperties {
         let boxed = message
             .box_message(&self.id)
             .map_err(|_e| MessagingErr::InvalidActorType)?;
-        #[cfg(feature = "verif_hooks")]
-        crate::verif::point(crate::verif::PointKind::Channel, "msg.send", &self.message as *const _ as usize);
         self.message
             .send(MuxedMessage::Message(boxed))
             .map_err(|e| match e.0 {
@@ -272,8 +275,6 @@ impl ActorProperties {
                 Ordering::Acquire,
             ) {
                 Ok(_) => {
-                    #[cfg(feature = "verif_hooks")]
-                    crate::verif::point(crate::verif::PointKind::Channel, "drain.send", &self.message as *const _ as usize);
                     return self
                         .message
                         .send(MuxedMessage::Drain)
@@ -323,8 +324,6 @@ impl ActorProperties {
             #[cfg(feature = "message_span_propogation")]
             span: None,
         };
-        #[cfg(feature = "verif_hooks")]
-        crate::verif::point(crate::verif::PointKind::Channel, "msg.send_serialized", &self.message as *const _ as usize);
         Ok(self
             .message
             .send(MuxedMessage::Message(boxed))
@@ -344,8 +343,6 @@ impl ActorProperties {
             .unwrap()
             .take()
             .map_or(Err(MessagingErr::ChannelClosed), |prt| {
-                #[cfg(feature = "verif_hooks")]
-                crate::verif::point(crate::verif::PointKind::Channel, "stop.send", &self.stop as *const _ as usize);
                 prt.send(msg).map_err(|_| MessagingErr::ChannelClosed)
             })
     }
@@ -362,8 +359,6 @@ impl ActorProperties {
 
     /// Wait for the actor to exit
     pub(crate) async fn wait(&self) {
-        #[cfg(feature = "verif_hooks")]
-        crate::verif::point(crate::verif::PointKind::Notify, "wait.notified", &self.wait_handler as *const _ as usize);
         let notified = self.wait_handler.notified();
         if self.get_status() != ActorStatus::Stopped {
             notified.await;
@@ -381,12 +376,8 @@ impl ActorProperties {
     }
 
     pub(crate) fn notify_stop_listener(&self) {
-        #[cfg(feature = "verif_hooks")]
-        crate::verif::point(crate::verif::PointKind::Notify, "wait.notify_waiters", &self.wait_handler as *const _ as usize);
         self.wait_handler.notify_waiters();
         // Preserve one permit for a waiter created after the actor stopped.
-        #[cfg(feature = "verif_hooks")]
-        crate::verif::point(crate::verif::PointKind::Notify, "wait.notify_one", &self.wait_handler as *const _ as usize);
         self.wait_handler.notify_one();
     }
 
